@@ -14,6 +14,9 @@ ALPHABET = (
     list("abcdefghijklmnopqrstuvwxyzABCDEFGHIJKLMNOPQRSTUVWXYZ0123456789_$")
     + list("[]():=+-*.?!&|<>,#\"\\' ")
     + ["é", "中", "\x00", "\x7f", "~", "@", "%", "^", ";", "{", "}", "`", "/"]
+    # characters that Python's str methods and \d / \w treat as digits or letters but the documented
+    # patterns ([0-9], [a-z], [A-Z]) do not: Arabic-Indic and fullwidth digits, superscripts, Greek, Cyrillic
+    + ["\u0661", "\u0666", "\uff18", "\u00b2", "\u0969", "\u03b1", "\u0410", "\u00e0", "\u017f", "\uff21", "\u2160"]
 )
 
 KEYWORD_LIKE = [
@@ -22,8 +25,8 @@ KEYWORD_LIKE = [
     "$upper_bound", "$lower_bound", "$static_size_in_bits", "$is_statically_sized", "$min_size_in_bytes", "$", "$x",
     "true", "false", "truefalse", "True",
 ]
-NUMBER_LIKE = ["0", "00", "007", "1_000", "1_00", "1__000", "0x_ff", "0x", "0xff_ffff", "0xf_ffff_ffff", "0b2", "0b_1", "0b1010_1010", "0b101_0", "0B1", "0X1", "1e5", "12ab", "0x1G", "_1", "1_", "9" * 25]
-WORD_LIKE = ["a", "A", "A1", "AB", "A_", "Ab", "aB", "abcDef", "a_b", "a__b", "_a", "Foo", "FOO", "Foo_Bar", "FOo", "fOO", "EmbossReserved", "EmbossReservedX", "emboss_reserved", "emboss_reserved_x", "EMBOSS_RESERVED", "EMBOSS_RESERVED_X", "emboss_reserve", "x1", "X1", "XY1"]
+NUMBER_LIKE = ["0", "00", "007", "1_000", "1_00", "1__000", "0x_ff", "0x", "0xff_ffff", "0xf_ffff_ffff", "0b2", "0b_1", "0b1010_1010", "0b101_0", "0B1", "0X1", "1e5", "12ab", "0x1G", "_1", "1_", "9" * 25, "\u0661\u0666", "1\u0661", "\uff18", "\u00b2", "0x\uff21", "1_\u0660\u0660\u0660"]
+WORD_LIKE = ["a", "A", "A1", "AB", "A_", "Ab", "aB", "abcDef", "a_b", "a__b", "_a", "Foo", "FOO", "Foo_Bar", "FOo", "fOO", "EmbossReserved", "EmbossReservedX", "emboss_reserved", "emboss_reserved_x", "EMBOSS_RESERVED", "EMBOSS_RESERVED_X", "emboss_reserve", "x1", "X1", "XY1", "\u03b1b", "a\u00e0", "\u0410a", "A\uff21", "a\u0661", "\u017f"]
 DOC_LIKE = ["--", "-- ", "-- x", "--x", "---", "-- --", "- -", "-", "--\t", "# c", "#", "#--"]
 STRING_LIKE = ['"', '""', '"a"', '"a', '"\\n"', '"\\q"', '"\\"', '"a"b"', "'a'", '"\\\\"', '"a\\', '"é"']
 PUNCT = list(tokenizer.LITERAL_TOKEN_PATTERNS[:20]) + ["===", "!==", "<==", "&&&", "|", "&", "!", "<>", "=>", "..", "::", "?:", "[[", "]]", "+-", "-+", "--", "->"]
